@@ -4,6 +4,7 @@ package main
 
 import (
 	"bytes"
+	"encoding/hex"
 	"encoding/json"
 	"fmt"
 	"math"
@@ -86,6 +87,38 @@ func hexEvent(c *ctx, b []byte) M {
 	ev["json_err"] = res
 	ev["json"] = bs(back.X)
 	return ev
+}
+
+// backendReuseEvents: the text / JSON leaf types decoded twice into ONE variable (first a longer, then a shorter value)
+func backendReuseEvents(c *ctx) []M {
+	hexText := func(n int) []byte { return []byte(hex.EncodeToString(c.bytesN(n))) }
+	var out []M
+	out = append(out, reuseEvent("backend/HEXBytes", func() interface{} { return &backend.HEXBytes{} },
+		func(p interface{}, b []byte) error { return p.(*backend.HEXBytes).UnmarshalText(b) },
+		func(p interface{}) interface{} { return bs(*p.(*backend.HEXBytes)) }, hexText(4+c.rnd.Intn(20)), hexText(c.rnd.Intn(8))))
+	type phyDoc struct {
+		PHYPayload backend.HEXBytes
+	}
+	doc := func(n int) []byte { return []byte(`{"PHYPayload":"` + string(hexText(n)) + `"}`) }
+	out = append(out, reuseEvent("backend/json-HEXBytes-field", func() interface{} { return &phyDoc{} },
+		func(p interface{}, b []byte) error { return json.Unmarshal(b, p) },
+		func(p interface{}) interface{} { return bs(p.(*phyDoc).PHYPayload) }, doc(4+c.rnd.Intn(20)), doc(c.rnd.Intn(8))))
+	num := func(max int) []byte { return []byte(fmt.Sprintf("%d.%06d", c.rnd.Intn(max), c.rnd.Intn(1000000))) }
+	out = append(out, reuseEvent("backend/Frequency", func() interface{} { f := backend.Frequency(0); return &f },
+		func(p interface{}, b []byte) error { return p.(*backend.Frequency).UnmarshalJSON(b) },
+		func(p interface{}) interface{} { return le32(uint32(*p.(*backend.Frequency))) }, num(3000), num(900)))
+	pc := func() []byte { return []byte(fmt.Sprintf("0.%02d", c.rnd.Intn(100))) }
+	out = append(out, reuseEvent("backend/Percentage", func() interface{} { f := backend.Percentage(0); return &f },
+		func(p interface{}, b []byte) error { return p.(*backend.Percentage).UnmarshalJSON(b) },
+		func(p interface{}) interface{} { return int(*p.(*backend.Percentage)) }, pc(), pc()))
+	ts := func() []byte {
+		t, _ := backend.ISO8601Time(time.Unix(c.rnd.Int63n(4102444800), 0).UTC()).MarshalText()
+		return t
+	}
+	out = append(out, reuseEvent("backend/ISO8601Time", func() interface{} { return &backend.ISO8601Time{} },
+		func(p interface{}, b []byte) error { return p.(*backend.ISO8601Time).UnmarshalText(b) },
+		func(p interface{}) interface{} { return utcVal(time.Time(*p.(*backend.ISO8601Time)).UTC()) }, ts(), ts()))
+	return out
 }
 
 func timeEvent(t time.Time) M {
@@ -396,6 +429,11 @@ func drvBJSON(c *ctx) error {
 			c.emit(hexEvent(c, c.bytesN(c.rnd.Intn(24))))
 			ts := time.Unix(c.rnd.Int63n(4102444800), int64(c.pick(0, 1, 500000000, 999999999))).In(time.FixedZone("", c.pick(0, 3600, -18000, 19800, 45*60)))
 			c.emit(timeEvent(ts))
+			if i%8 == 0 {
+				for _, ev := range backendReuseEvents(c) {
+					c.emit(ev)
+				}
+			}
 		}
 	case "envelope":
 		for i := 0; i < c.n; i++ {
